@@ -28,7 +28,7 @@ func init() {
 			"msize >= 24 as in the property statement; sampled, not exhaustive",
 		},
 		Shards:   shards(8, 16),
-		Timeout:  timeouts(5*time.Minute, 30*time.Minute),
+		Timeout:  timeouts(12*time.Minute, 90*time.Minute),
 		MinEvals: 1000,
 		Required: []string{"path:fit", "path:fit-exact", "path:over-by-1", "path:truncated", "path:clamped", "path:rejected", "path:cancelled", "long_lived_channel_writes", "overlong_string_messages"},
 		Run:      runC02,
